@@ -167,7 +167,7 @@ MARKUP_ABBRS = ['!', 'doc', 'ul>li.item[title]', 'zz', 'a', 'img', 'div[lang=${l
                 'div.c/', 'link', 'bq>p', 'label[for=x].y', '..cls', 'p>span*2', 'div{${locale}}>zz', 'section>(a+img)*2', 'br+hr',
                 'html>body>div>p', 'p>a+em+span+b', 'input[checked title]', 'div>span*4', 'ul>li*2>a', 'table>tr>td', 'zy+zx', 'zw>a']
 STYLE_ABBRS = ['m10', 'zz', 'm', 'p10+m5', 'bd', 'c#f', 'p', 'pos', 'w1.5', 'z5+zz', 'm1.5-2', 'lh2', 'bd+m+p', 'posr', 'c#fc0.5',
-               'm:a', 'd:n', 'p-a', 'zom+z5', 'fw5', 'm0-auto', 'w10+h.5', 'zy+zx']
+               'm:a', 'd:n', 'p-a', 'zom+z5', 'fw5', 'm0-auto', 'w10+h.5', 'zy+zx', 'w10vh+m5px', 'h2vmin', 'm1e+p2x']
 
 
 def gen_c20(run_seed):
